@@ -217,7 +217,16 @@ def disciplines : List (Nat × LDisc) := [
   (L.«MultiMetrics.gauges», .atomic),
   (L.«MultiMetrics.updowns», .atomic),
   (L.«MultiMetrics.stores», .atomic),
-  (L.«MultiMetrics.metricTypes», .atomic)]
+  (L.«MultiMetrics.metricTypes», .atomic),
+  -- SamplerFactory
+  (L.«SamplerFactory.Config», .initOnly),
+  (L.«SamplerFactory.Logger», .initOnly),
+  (L.«SamplerFactory.Metrics», .initOnly),
+  (L.«SamplerFactory.Peers», .initOnly),
+  (L.«SamplerFactory.peerCount», .lock L.«SamplerFactory.mutex»),
+  (L.«SamplerFactory.mutex», .atomic),
+  (L.«SamplerFactory.sharedDynsamplers», .lock L.«SamplerFactory.mutex»),
+  (L.«SamplerFactory.goalThroughputConfigs», .lock L.«SamplerFactory.mutex»)]
 
 /-- Role of the functions that need one (every function not listed is `any`). -/
 def roles : List (Nat × Role) := [
@@ -243,6 +252,7 @@ def roles : List (Nat × Role) := [
   (F.«NewMultiMetrics», .init),
   (F.«MultiMetrics.Start», .init),
   (F.«MultiMetrics.AddChild», .init),           -- only called by Start
+  (F.«SamplerFactory.Start», .init),
   -- tear-down: after every user of the object has been stopped (startstop stops in reverse order)
   (F.«DirectTransmission.Stop», .teardown),
   (F.«DirectTransmission.Stop$1», .teardown),   -- the sends Stop starts and waits for itself
@@ -290,7 +300,10 @@ def knownViolations : List (Nat × Nat × AKind) := [
   (L.«RedisPubsubPeers.hash», F.«RedisPubsubPeers.checkHash», .write),
   (L.«RedisPubsubPeers.hash», F.«RedisPubsubPeers.Ready$1», .read),
   -- callbacks are appended (by other components' Start) after the subscription is live
-  (L.«RedisPubsubPeers.callbacks», F.«RedisPubsubPeers.RegisterUpdatedPeersCallback», .write)]
+  (L.«RedisPubsubPeers.callbacks», F.«RedisPubsubPeers.RegisterUpdatedPeersCallback», .write),
+  -- createSampler (worker goroutines) reports len(s.sharedDynsamplers) without the mutex while
+  -- ClearDynsamplers (collector monitor goroutine, on reload) clears the map
+  (L.«SamplerFactory.sharedDynsamplers», F.«SamplerFactory.createSampler», .read)]
 
 /-- Unresolved selectors that were inspected by hand and are not accesses to a tracked field. -/
 def reviewedUnresolved : List (String × String) := [
